@@ -422,6 +422,9 @@ def check_c09(res, tier, replay):
     for rr in race_reports[:5]:
         bad += 1
         res.violation({'problem': 'data race reported by the Go race detector', 'report': rr[:3000], 'cases': 'see report (REUSE batch)'})
+    rc_n, rc_bad = check_reconf(res, rng, tier, ('IND', 'STRAT', 'WRAPPED'), 'C09')
+    bad += rc_bad
+    res.coverage['reconfigured_after_use'] = rc_n
     res.samples = [{'case': '%s %s ns=%s' % (c['kind'], c['name'], c['ns'])} for c in cases[:3]]
     res.coverage.update({
         'evaluations': calls, 'distinct_nontrivial': len(cases),
@@ -435,6 +438,91 @@ def check_c09(res, tier, replay):
                        'receiver-field writes inside Compute/Report are additionally looked for by the source scan (class_scan in C03 evidence)']
     scan_receiver_writes(res)
     return res.finish()
+
+
+RECONF_WRAPPED = [('And:Macd+Rsi', 'And:Trix+Bop'), ('Or:Macd+Rsi', 'Or:Vwma+GoldenCross'), ('Majority:Macd+Rsi+Trix', 'Majority:Kdj+Bop+Rsi'),
+                  ('Split:Macd+Rsi', 'Split:Trix+Kdj'), ('Inverse:Macd', 'Inverse:Kdj'), ('NoLoss:Macd', 'NoLoss:Rsi'), ('StopLoss:Macd', 'StopLoss:Trix')]
+
+
+def check_reconf(res, rng, tier, which, prop):
+    """C09 "an instance holds configuration only": a used instance whose exported configuration is then overwritten
+    with that of a fresh donor must behave like a fresh instance of the donor's configuration (RECONF in harness/reconf.go).
+    which: subset of {'IND', 'STRAT', 'WRAPPED'}.  Returns (cases, bad)."""
+    hi = 6 if tier == 'quick' else 12
+    cases = []
+    reps = 1 if tier == 'quick' else 4
+    if 'IND' in which:
+        for name, (kinds, cfg, default) in CAT.items():
+            for j in range(reps):
+                a, b = cfg(rng, hi), cfg(rng, hi)
+                for _ in range(6):
+                    if list(b[0]) != list(a[0]):
+                        break
+                    b = cfg(rng, hi)
+                w = max(sum(a[0]) if a[0] else 1, sum(b[0]) if b[0] else 1)
+                envs = [make_inputs(rng, name, rng.randrange(w + 2, 3 * w + 25))[0] for _ in range(2)]
+                cases.append(dict(kind='IND', a=name, b=name, nsA=list(a[0]), fsA=list(a[1]), nsB=list(b[0]), fsB=list(b[1]), envs=envs))
+    if 'STRAT' in which:
+        for name in SCAT.keys():
+            for j in range(2 * reps):
+                a, b = SCAT[name]['cfg'](rng, hi), SCAT[name]['cfg'](rng, hi)
+                for _ in range(6):
+                    if strat_idle(name, list(b[0])) != strat_idle(name, list(a[0])):
+                        break
+                    b = SCAT[name]['cfg'](rng, hi)
+                w = max(strat_idle(name, list(a[0])), strat_idle(name, list(b[0])))
+                envs = []
+                for t in range(2):
+                    o, _ = gen_ohlcv(rng, rng.randrange(w + 2, 3 * w + 30), rng.choice(['walk', 'wide', 'zigzag', 'down', 'up']))
+                    envs.append([o[k] for k in KINDS_OF])
+                cases.append(dict(kind='STRAT', a=name, b=name, nsA=list(a[0]), fsA=list(a[1]), nsB=list(b[0]), fsB=list(b[1]), envs=envs))
+    if 'WRAPPED' in which:
+        pairs = list(RECONF_WRAPPED) + [(b, a) for a, b in RECONF_WRAPPED]
+        for a, b in pairs:
+            envs = []
+            for t in range(2):
+                o, _ = gen_ohlcv(rng, rng.randrange(14, 70), rng.choice(['walk', 'wide', 'zigzag', 'down', 'up']))
+                envs.append([o[k] for k in KINDS_OF])
+            cases.append(dict(kind='STRAT', a=a, b=b, nsA=[], fsA=[], nsB=[], fsB=[], envs=envs))
+        for j in range(2 * reps):
+            p1 = rng.randrange(1, 6); p2 = p1 + rng.randrange(0, 6); p3 = rng.randrange(1, 6)
+            envs = []
+            for t in range(2):
+                o, _ = gen_ohlcv(rng, rng.randrange(40, 110), rng.choice(['walk', 'wide', 'zigzag', 'down', 'up']))
+                envs.append([o[k] for k in KINDS_OF])
+            lv = [float(rng.choice([20, 30, 40, 45])), float(rng.choice([55, 60, 70, 80]))]
+            if j % 2 == 0:
+                cases.append(dict(kind='STRAT', a='MacdRsi', b='MacdRsi', nsA=[], fsA=[], nsB=[p1, p2, p3], fsB=lv, envs=envs))
+            else:
+                cases.append(dict(kind='STRAT', a='MacdRsi', b='MacdRsi', nsA=[p1, p2, p3], fsA=lv, nsB=[], fsB=[], envs=envs))
+    lines = []
+    for i, c in enumerate(cases):
+        for m, mode in enumerate(('replace', 'inplace')):
+            lines.append('r%d_%d RECONF %s %s %s %s %s %s %s %s %s' % (
+                i, m, c['kind'], c['a'], vlib.il(c['nsA']), vlib.fl(c['fsA']), c['b'], vlib.il(c['nsB']), vlib.fl(c['fsB']), mode,
+                '/'.join(vlib.streams(e) for e in c['envs'])))
+    got = vlib.run_go(lines)
+    bad = 0
+    for i, c in enumerate(cases):
+        for m, mode in enumerate(('replace', 'inplace')):
+            g = got.get('r%d_%d' % (i, m), 'missing')
+            problem = None
+            if not g.startswith('ok '):
+                problem = 'reconfigured run failed: ' + g[:300]
+            else:
+                parts = g[3:].split(' | ')
+                if len(parts) != 3:
+                    problem = 'unparsable: ' + g[:200]
+                elif parts[1] != parts[2]:
+                    problem = ('a used instance whose exported configuration was set (%s) to %s %s %s differs from a fresh instance of that configuration: reconfigured=%s fresh=%s'
+                               % (mode, c['b'], c['nsB'], c['fsB'], parts[1][:160], parts[2][:160]))
+            if problem:
+                bad += 1
+                if bad <= 10:
+                    res.violation({'reconf_cases': [c], 'mode': mode, 'problem': problem, 'property': prop,
+                                   'lines': [lines[2 * i + m].split(' ', 1)[1]],
+                                   'oracle': 'an instance holds configuration only: after any earlier Compute, its behaviour is that of a fresh instance with the same exported configuration'})
+    return len(cases) * 2, bad
 
 
 def run_race(lines, env):
